@@ -435,6 +435,24 @@ fn fp_class(recs: &[(u16, Vec<u8>)]) -> Option<String> {
     })
 }
 
+/// the file-level model `xlsOpen` (container + stream + globals loop) against the implementation
+fn judge_xls_file(out: &mut Outcome, bytes: &[u8], impl_tag: &str, drv: &mut Driver, label: &str) {
+    if bytes.len() > 300_000 {
+        out.count(format!("{label}:file-model=skipped-large"));
+        return;
+    }
+    let mf = drv.ask(&format!("xlsfile {}", hex(bytes)));
+    if mf.starts_with("err:unmodelled") {
+        // a container with a VBA project storage: `VbaProject::from_cfb` runs first (C18's subject)
+        out.count(format!("{label}:file-model=unmodelled-vba"));
+        return;
+    }
+    out.count(format!("{label}:file-model={}", mf.split(':').next().unwrap()));
+    if !agree(impl_tag, &mf) {
+        out.fail("impl_vs_model", &format!("{label}:file:impl={}:model={}", impl_tag.split(':').next().unwrap(), mf.split(':').next().unwrap()), impl_tag, &mf, "");
+    }
+}
+
 fn judge_xls(out: &mut Outcome, bytes: &[u8], wb: &[u8], drv: &mut Driver, expect_pw: Option<bool>, cls: &str, extras: bool) {
     let globals = frame_globals(wb);
     let cut = if wb.len() > 200_000 { globals.iter().map(|r| 4 + r.1.len()).sum::<usize>().min(wb.len()) } else { wb.len() };
@@ -445,6 +463,7 @@ fn judge_xls(out: &mut Outcome, bytes: &[u8], wb: &[u8], drv: &mut Driver, expec
     let it_ = open_xls(bytes);
     out.count(format!("xls:model={}", ms.split(':').next().unwrap()));
     out.count(format!("xls:impl={it_}"));
+    judge_xls_file(out, bytes, &it_, drv, "xls");
     if ms != mr {
         out.fail("model_vs_spec", "xls-stream-vs-records", &it_, &reply, "");
     }
@@ -525,6 +544,7 @@ fn run_xlsraw(text: &str, drv: &mut Driver) -> Outcome {
     let legal = !pre.iter().any(|r| r.0 == 0x000A);
     out.count(format!("xlsraw:filepass={cls}:{}", if legal { "before-eof" } else { "after-eof" }));
     out.count(format!("xlsraw:impl={it_}"));
+    judge_xls_file(&mut out, &bytes, &it_, drv, "xlsraw");
     // the harness frames the Lean-encoded stream back: it must contain the FILEPASS record where it was put
     let g = frame_globals(&wb);
     let seen = g.iter().any(|r| r.0 == 0x2F);
@@ -1046,6 +1066,7 @@ fn judge_plain(out: &mut Outcome, fmt: &str, bytes: &[u8], drv: &mut Driver, exp
         "xlsb" => (open_xlsb(bytes), drv.ask(&format!("ooxml {}", hex(bytes)))),
         "xls" => {
             let it = open_xls(bytes);
+            judge_xls_file(out, bytes, &it, drv, &format!("{label}:xls"));
             let m = match extract_workbook_stream(bytes) {
                 Some(wb) => {
                     let g = frame_globals(&wb);
